@@ -144,6 +144,22 @@ def _late(spec, obj, env, opts):
             _late(cspec, o, env, opts)
 
 
+def collision_name(exc, graph):
+    """If `exc` is a ValueError that mentions the name of an initializer already stored in `graph` (the
+    name-collision check of Parameter._realize: another Parameter object is registered under that name),
+    return that name (the longest one mentioned, quoted form preferred), else None."""
+    if not isinstance(exc, ValueError):
+        return None
+    msg = str(exc)
+    keys = [k for k in graph.initializers.keys() if k]
+    quoted = [k for k in keys if repr(k) in msg]
+    plain = [k for k in keys if k in msg]
+    for cands in (quoted, plain):
+        if cands:
+            return max(cands, key=len)
+    return None
+
+
 def run_spec(spec, opts=None):
     """Replay on the real code. Returns dict(inits, sd, named, error, model)."""
     import onnx_ir as ir
@@ -159,6 +175,8 @@ def run_spec(spec, opts=None):
     res["named"] = [k for k, _ in root.named_parameters()]
     res["sd_ids"] = [id(p) for _, p in root.named_parameters()]
     res["pnames"] = dict(env.first_key)
+    res["param_ids"] = {pid: id(p) for pid, p in env.params.items()}
+    res["collision"] = None
     try:
         y = _call(root, gb.op, x, twice=opts.get("twice", False)) if spec[0] != "mod" else root(gb.op, x)
     except NotImplementedError as e:
@@ -169,10 +187,18 @@ def run_spec(spec, opts=None):
             res["error"] = "EmptySequential"
             return res
         raise
+    except ValueError as e:
+        # the name-collision check of Parameter._realize (proposed fix): any other ValueError escapes (fail-closed)
+        name = collision_name(e, g)
+        if name is None:
+            raise
+        res["error"] = "NameCollision"
+        res["collision"] = name
+        res["collision_message"] = str(e)[:300]
+        return res
     res["inits"] = [k for k, v in g.initializers.items() if id(v) in {id(p) for p in env.params.values()}]
     res["all_inits"] = list(g.initializers.keys())
     res["init_ids"] = {k: id(v) for k, v in g.initializers.items()}
-    res["param_ids"] = {pid: id(p) for pid, p in env.params.items()}
     res["param_names"] = {pid: p.name for pid, p in env.params.items()}
     res["realized"] = {pid: bool(p._realized) for pid, p in env.params.items()}
     g.outputs.append(y)
